@@ -123,3 +123,60 @@ Proof.
     (repeat split; try reflexivity; try assumption; [apply (conv_factor_pos _ _ _ _ Hc Hq)|]);
     unfold var_def; cbn [ceqs]; destruct (find (fun q => clhs_eqb (q_lhs q) (CLV v)) (ceqs s)); reflexivity.
 Qed.
+
+(* INPUT of a state variable that is not the free variable and has no assignment of its own *)
+Lemma find_app_some {X} (f : X -> bool) l r x : find f l = Some x -> find f (l ++ r) = Some x.
+Proof. induction l as [|y l IH]; cbn [find app]; [discriminate|]. destruct (f y); [auto|exact IH]. Qed.
+
+Lemma set_var_length l i f : length (set_var l i f) = length l.
+Proof.
+  unfold set_var. destruct (nth_error l i) as [c|]; [|reflexivity].
+  generalize (f c). intros y. revert i. induction l as [|z l IH]; intros [|i]; cbn; try reflexivity. f_equal. apply IH.
+Qed.
+
+Lemma ode_def_exact s v ode t : ode_def s v = Some ode -> q_lhs ode = CLD v t ->
+  find (fun q => clhs_eqb (q_lhs q) (CLD v t)) (ceqs s) = Some ode.
+Proof.
+  unfold ode_def. induction (ceqs s) as [|x l IH]; cbn [find]; [discriminate|].
+  destruct (q_lhs x) as [y|y t'] eqn:El.
+  - cbn [clhs_eqb]. exact IH.
+  - destruct (Nat.eqb_spec y v) as [->|Hne].
+    + intros [= ->] Hl. rewrite El in Hl. injection Hl as ->. cbn [clhs_eqb]. rewrite !Nat.eqb_refl. reflexivity.
+    + intros H Hl. cbn [clhs_eqb]. destruct (Nat.eqb_spec y v); [contradiction|]. cbn [andb]. apply IH; assumption.
+Qed.
+
+Theorem convert_input_state_shape s v target mv s' n ode t :
+  convert_variable s v target DInput mv = COk (s', n) -> n <> v ->
+  ode_def s v = Some ode -> q_lhs ode = CLD v t ->
+  var_def s v = None -> (forall t0, free_var s = Some t0 -> t0 <> v) ->
+  exists orig cfv cfq,
+    nth_error (cvars s) v = Some orig /\ conv (c_unit orig) target = Some cfv /\
+    vec_to_Q cfv = Some cfq /\ (0 < cfq)%Q /\ n = length (cvars s) /\
+    ceqs s' = replace_derivs [((v, t), S n)]
+                ((remove_eq (ceqs s ++ [{| q_lhs := CLV v; q_rhs := ediv (var n) (EQty (cqnext s) cfq (Z.of_nat (length (cunits s)))) |}]) (CLD v t)
+                  ++ [{| q_lhs := CLV (S n); q_rhs := q_rhs ode |}])
+                 ++ [{| q_lhs := CLD n t; q_rhs := emul (var (S n)) (EQty (cqnext s) cfq (Z.of_nat (length (cunits s)))) |}]).
+Proof.
+  intros H Hnv Hode Hl Hvd Hfree. unfold convert_variable in H.
+  destruct (nth_error (cvars s) v) as [orig|] eqn:Ho; [|discriminate].
+  destruct (conv (c_unit orig) target) as [cfv|] eqn:Hc; [|discriminate].
+  destruct (is_one cfv) eqn:H1; [injection H as _ E; congruence|].
+  destruct (vec_to_Q cfv) as [cfq|] eqn:Hq; [|discriminate].
+  exists orig, cfv, cfq.
+  assert (Hst : is_state s v = true) by (unfold is_state; rewrite Hode; reflexivity).
+  rewrite Hst in H.
+  (* the assignment of v: none *)
+  unfold var_def in Hvd, H. cbn [ceqs] in H. rewrite Hvd in H.
+  (* the ODE is found again after the new assignment was appended *)
+  match type of H with context [ode_def ?S v] => assert (Ho1 : ode_def S v = Some ode) end.
+  { unfold ode_def in *. cbn [ceqs]. apply find_app_some. exact Hode. }
+  rewrite Ho1, Hl in H. cbn [move_ode_rhs cvars ceqs cunits cqnext] in H.
+  assert (Hfv : match free_var s with Some t0 => Nat.eqb t0 v | None => false end = false).
+  { destruct (free_var s) as [t0|] eqn:Hf; [|reflexivity]. apply Nat.eqb_neq. apply Hfree. reflexivity. }
+  unfold move_ode_rhs in H. cbn [cvars ceqs cunits cqnext] in H.
+  destruct (match c_cmeta orig with Some _ => mv | None => false end);
+  (destruct (free_var s) as [t0|] eqn:Hf; [rewrite Hfv in H|]; injection H as <- <-; cbn [ceqs];
+    rewrite ?set_var_length, ?app_length; cbn [length]; rewrite ?set_var_length, ?app_length; cbn [length];
+    rewrite !Nat.add_1_r, Hl;
+    (repeat split; try reflexivity; try assumption; apply (conv_factor_pos _ _ _ _ Hc Hq))).
+Qed.
